@@ -185,8 +185,13 @@ namespace sim
 			, out_request.data(), out_request.size());
 		m_num_server_out_bytes += int(out_request.size());
 
+		// the connection to the server is being set up for an earlier request
+		// of this client: this one is sent along with it from the buffer
+		if (m_connecting_to_server) return;
+
 		if (!m_server_connection.is_open())
 		{
+			m_connecting_to_server = true;
 			boost::system::error_code err;
 			tcp::endpoint target(make_address(host.c_str(), err)
 				, static_cast<unsigned short>(port));
@@ -249,6 +254,7 @@ namespace sim
 
 	void http_proxy::on_connected(boost::system::error_code const& ec)
 	{
+		m_connecting_to_server = false;
 		if (ec)
 		{
 			std::printf("http_proxy::on_connected() connection failed: %s\n", ec.message().c_str());
@@ -334,6 +340,7 @@ namespace sim
 
 	void http_proxy::close_connection()
 	{
+		m_connecting_to_server = false;
 		m_num_client_in_bytes = 0;
 		m_num_server_out_bytes = 0;
 		m_num_in_bytes = 0;
